@@ -67,3 +67,62 @@ def _replay(model, contract):
 
 
 CONTRACTS["results:Result.get_equivalent_alloc#unconstrained_program"]["replay_hook"] = _replay
+
+
+# ---- the number eligible: what the run used (Model.update_pars) and what the result reports (Result.get_coverage) are the same
+# function of the recorded compartment sizes -- the sum over the program's target compartments at that time index (C13)
+def _env_run_eligible(it):
+    from pyvc.core import Opaque
+
+    comps = [it.new_obj("comp%d" % j, ["Compartment", "SinkCompartment"]) for j in range(2)]
+    it.facts.append(comps[0].ref != comps[1].ref)
+    self = it.new_obj("self", ["Model"])
+    return {"self": self, "k": "prog", "comp_list": comps, "c0": comps[0], "c1": comps[1], "prop_coverage": {"prog": 0.0},
+            "COVERED": Opaque("get_prop_covered result"), "CACHE": {"comps": {"prog": comps}, "prop_coverage": {}, "capacities": Opaque("capacities")}}
+
+
+def _ghost_prop_covered(it, t, capacity, n):
+    it.ghost_env["N_USED"] = n
+    it.live_env["N_USED"] = n
+    return it.ghost_env["COVERED"]
+
+
+CONTRACTS["model:Model.update_pars#eligible_used_by_the_run"] = dict(
+    schema="model_schema", fragment={"iter": "self._program_cache['comps'].items()"}, make_env=_env_run_eligible,
+    params={"ti": "int"},
+    stubs={"self._program_cache": "CACHE", "self._program_cache['capacities'][k][ti]": "COVERED", "self.t[ti]": "COVERED"},
+    call_stubs={"self.progset.programs[k].get_prop_covered": _ghost_prop_covered},
+    requires=["0 <= ti", "ti < len(c0.vals)", "ti < len(c1.vals)"],
+    ensures=[("C13.number_eligible_used_by_the_run_is_the_current_size_of_the_targeted_compartments", "N_USED == c0.vals[ti] + c1.vals[ti]")],
+    defined_props=["C13"])
+
+
+def _env_report_eligible(first):
+    def make(it):
+        from pyvc.interp import PyObjV, ClassV
+        from pyvc.core import LArr
+        from pyvc import source
+
+        mm = source.load("model")
+        n = z3.Int("n_times")
+        it.facts.append(n >= 0)
+        f = z3.Function("sizes", z3.IntSort(), z3.RealSort())
+        g = z3.Function("eligible_so_far", z3.IntSort(), z3.RealSort())
+        sizes = LArr(n, lambda i: f(i if z3.is_expr(i) else z3.IntVal(i)), fresh_alloc=False)
+        comp = PyObjV("Compartment", mm, {"id": ("pop", "c"), "vals": sizes})
+        prog = PyObjV("Program", source.load("programs"), {"name": "prog", "target_pops": ["pop"], "target_comps": ["c"]})
+        so_far = LArr(n, lambda i: g(i if z3.is_expr(i) else z3.IntVal(i)))
+        return {"self": None, "prog": prog, "pop_name": "pop", "comp_name": "c", "COMP": [comp], "comp0": comp, "num_eligible": ({} if first else {"prog": so_far}),
+                "SIZES": sizes, "SO_FAR": so_far, "n": n, "JunctionCompartment": ClassV("JunctionCompartment", mm)}
+
+    return make
+
+
+for _first in (True, False):
+    CONTRACTS["results:Result.get_coverage#eligible_%s" % ("first_compartment" if _first else "further_compartment")] = dict(
+        schema=schema, fragment={"iter": "prog.target_comps"}, make_env=_env_report_eligible(_first),
+        stubs={"self.get_variable(comp_name, pop_name)": "COMP"},
+        ensures=[("C13.reported_number_eligible_adds_the_recorded_size_of_each_targeted_compartment",
+                  "len(num_eligible['prog']) == n and all(num_eligible['prog'][i] == %s for i in range(n))" % ("SIZES[i]" if _first else "SO_FAR[i] + SIZES[i]")),
+                 ("C13+C20.the_report_does_not_write_into_the_result", "num_eligible['prog'] is not comp0.vals and all(comp0.vals[i] == SIZES[i] for i in range(n))")],
+        defined_props=["C13", "C20"])
